@@ -10,6 +10,7 @@ import WowSrp.Model.World
 import WowSrp.Model.Pin
 import WowSrp.Model.Integrity
 import WowSrp.Model.MatrixCard
+import WowSrp.Model.Rng
 open WowSrp
 
 def C : Crypto := Crypto.real
@@ -26,6 +27,15 @@ def draw (n : Nat) : M Bytes := do
   if r.bytes.length < n then throw "rng-exhausted"
   set { r with bytes := r.bytes.drop n, used := r.used + n }
   pure (r.bytes.take n)
+
+/-- run a Model generator that consumes the front of the RNG stream -/
+def drawWith {α} (f : Bytes → Option (α × Bytes)) : M α := do
+  let r ← get
+  match f r.bytes with
+  | none => throw "rng-exhausted"
+  | some (v, rest) =>
+    set { r with bytes := rest, used := r.used + (r.bytes.length - rest.length) }
+    pure v
 
 def liftOut {α} : Out α → M α
   | .ok a => pure a
@@ -114,6 +124,8 @@ inductive HObj where
   | halves (e : Exp) (enc dec : Half)
   | wcli (c : WClientCrypto)
   | wsrv (c : WServerCrypto)
+  | wcliH (enc : Rc4) (dec : WClientDec)      -- split Wrath client halves
+  | wsrvH (enc : WServerEnc) (dec : Rc4)      -- split Wrath server halves
 
 def parseREv (s : String) : List REv :=
   if s = "-" then [] else
@@ -154,15 +166,19 @@ def HObj.enc (o : HObj) (data : Bytes) : M (HObj × Bytes) :=
   match o with
   | .comb e hc => do let (hc', out) ← liftOut (hc.encryptData e data); pure (.comb e hc', out)
   | .halves e en de => do let (en', out) ← liftOut (en.encrypt e data); pure (.halves e en' de, out)
-  | .wcli c => do let (r, out) ← liftOut (c.encrypt.apply data); pure (.wcli { c with encrypt := r }, out)
-  | .wsrv c => do let (r, out) ← liftOut (c.encrypt.encrypt data); pure (.wsrv { c with encrypt := r }, out)
+  | .wcli c => do let (c', out) ← liftOut (c.encryptData data); pure (.wcli c', out)
+  | .wsrv c => do let (c', out) ← liftOut (c.encryptData data); pure (.wsrv c', out)
+  | .wcliH en de => do let (r, out) ← liftOut (en.apply data); pure (.wcliH r de, out)
+  | .wsrvH en de => do let (r, out) ← liftOut (en.encrypt data); pure (.wsrvH r de, out)
 
 def HObj.dec (o : HObj) (data : Bytes) : M (HObj × Bytes) :=
   match o with
   | .comb e hc => do let (hc', out) ← liftOut (hc.decryptData e data); pure (.comb e hc', out)
   | .halves e en de => do let (de', out) ← liftOut (de.decrypt e data); pure (.halves e en de', out)
-  | .wcli c => do let (r, out) ← liftOut (c.decrypt.decrypt data); pure (.wcli { c with decrypt := r }, out)
-  | .wsrv c => do let (r, out) ← liftOut (c.decrypt.apply data); pure (.wsrv { c with decrypt := r }, out)
+  | .wcli c => do let (c', out) ← liftOut (c.decryptData data); pure (.wcli c', out)
+  | .wsrv c => do let (c', out) ← liftOut (c.decryptData data); pure (.wsrv c', out)
+  | .wcliH en de => do let (r, out) ← liftOut (de.decrypt data); pure (.wcliH en r, out)
+  | .wsrvH en de => do let (r, out) ← liftOut (de.apply data); pure (.wsrvH en r, out)
 
 def hdrOp (o : HObj) (tok : String) : M (HObj × String) := do
   let parts := tok.splitOn ":"
@@ -173,14 +189,16 @@ def hdrOp (o : HObj) (tok : String) : M (HObj × String) := do
     match o with
     | .comb e hc => do let (hc', out) ← liftOut (hc.encryptServerHeader e (nat! s) (nat! op)); pure (.comb e hc', hex out)
     | .halves e en de => do let (en', out) ← liftOut (en.encryptServerHeader e (nat! s) (nat! op)); pure (.halves e en' de, hex out)
-    | .wsrv c => do let (en', out) ← liftOut (c.encrypt.encryptServerHeader (nat! s) (nat! op)); pure (.wsrv { c with encrypt := en' }, hex out)
-    | .wcli _ => pure (o, "na")
+    | .wsrv c => do let (c', out) ← liftOut (c.encryptServerHeader (nat! s) (nat! op)); pure (.wsrv c', hex out)
+    | .wsrvH en de => do let (en', out) ← liftOut (en.encryptServerHeader (nat! s) (nat! op)); pure (.wsrvH en' de, hex out)
+    | _ => pure (o, "na")
   | ["ec", s, op] =>
     match o with
     | .comb e hc => do let (hc', out) ← liftOut (hc.encryptClientHeader e (nat! s) (nat! op)); pure (.comb e hc', hex out)
     | .halves e en de => do let (en', out) ← liftOut (en.encryptClientHeader e (nat! s) (nat! op)); pure (.halves e en' de, hex out)
-    | .wcli c => do let (r, out) ← liftOut (wClientEncryptHeader c.encrypt (nat! s) (nat! op)); pure (.wcli { c with encrypt := r }, hex out)
-    | .wsrv _ => pure (o, "na")
+    | .wcli c => do let (c', out) ← liftOut (c.encryptClientHeader (nat! s) (nat! op)); pure (.wcli c', hex out)
+    | .wcliH en de => do let (r, out) ← liftOut (wClientEncryptHeader en (nat! s) (nat! op)); pure (.wcliH r de, hex out)
+    | _ => pure (o, "na")
   | ["ds", d] =>
     match o with
     | .comb e hc => do let (hc', (s, op)) ← liftOut (hc.decryptServerHeader e (unhex d)); pure (.comb e hc', s!"{s}:{op}")
@@ -190,8 +208,9 @@ def hdrOp (o : HObj) (tok : String) : M (HObj × String) := do
     match o with
     | .comb e hc => do let (hc', (s, op)) ← liftOut (hc.decryptClientHeader e (unhex d)); pure (.comb e hc', s!"{s}:{op}")
     | .halves e en de => do let (de', (s, op)) ← liftOut (de.decryptClientHeader e (unhex d)); pure (.halves e en de', s!"{s}:{op}")
-    | .wsrv c => do let (r, (s, op)) ← liftOut (wServerDecryptHeader c.decrypt (unhex d)); pure (.wsrv { c with decrypt := r }, s!"{s}:{op}")
-    | .wcli _ => pure (o, "na")
+    | .wsrv c => do let (c', (s, op)) ← liftOut (c.decryptClientHeader (unhex d)); pure (.wsrv c', s!"{s}:{op}")
+    | .wsrvH en de => do let (r, (s, op)) ← liftOut (wServerDecryptHeader de (unhex d)); pure (.wsrvH en r, s!"{s}:{op}")
+    | _ => pure (o, "na")
   | ["rs", sc] =>
     let script := parseREv sc
     match o with
@@ -202,9 +221,12 @@ def hdrOp (o : HObj) (tok : String) : M (HObj × String) := do
       let r ← liftOut (de.readServerHeader e script)
       pure (.halves e en r.state, rdResult de script r)
     | .wcli c => do
-      let r ← liftOut (c.decrypt.readServerHeader script)
-      pure (.wcli { c with decrypt := r.state }, rdResult c.decrypt script r)
-    | .wsrv _ => pure (o, "na")
+      let r ← liftOut (c.readServerHeader script)
+      pure (.wcli r.state, rdResult c script r)
+    | .wcliH en de => do
+      let r ← liftOut (de.readServerHeader script)
+      pure (.wcliH en r.state, rdResult de script r)
+    | _ => pure (o, "na")
   | ["rc", sc] =>
     let script := parseREv sc
     match o with
@@ -215,9 +237,12 @@ def hdrOp (o : HObj) (tok : String) : M (HObj × String) := do
       let r ← liftOut (de.readClientHeader e script)
       pure (.halves e en r.state, rdResult de script r)
     | .wsrv c => do
-      let r ← liftOut (wServerReadHeader c.decrypt script)
-      pure (.wsrv { c with decrypt := r.state }, rdResult c.decrypt script r)
-    | .wcli _ => pure (o, "na")
+      let r ← liftOut (c.readClientHeader script)
+      pure (.wsrv r.state, rdResult c script r)
+    | .wsrvH en de => do
+      let r ← liftOut (wServerReadHeader de script)
+      pure (.wsrvH en r.state, rdResult de script r)
+    | _ => pure (o, "na")
   | ["ws", s, op, sc] =>
     let script := parseWEv sc
     match o with
@@ -228,9 +253,12 @@ def hdrOp (o : HObj) (tok : String) : M (HObj × String) := do
       let r ← liftOut (en.writeServerHeader e (nat! s) (nat! op) script)
       pure (.halves e r.state de, wrResult r)
     | .wsrv c => do
-      let r ← liftOut (c.encrypt.writeServerHeader (nat! s) (nat! op) script)
-      pure (.wsrv { c with encrypt := r.state }, wrResult r)
-    | .wcli _ => pure (o, "na")
+      let r ← liftOut (c.writeServerHeader (nat! s) (nat! op) script)
+      pure (.wsrv r.state, wrResult r)
+    | .wsrvH en de => do
+      let r ← liftOut (en.writeServerHeader (nat! s) (nat! op) script)
+      pure (.wsrvH r.state de, wrResult r)
+    | _ => pure (o, "na")
   | ["wc", s, op, sc] =>
     let script := parseWEv sc
     match o with
@@ -241,28 +269,42 @@ def hdrOp (o : HObj) (tok : String) : M (HObj × String) := do
       let r ← liftOut (en.writeClientHeader e (nat! s) (nat! op) script)
       pure (.halves e r.state de, wrResult r)
     | .wcli c => do
-      let r ← liftOut (wClientWriteHeader c.encrypt (nat! s) (nat! op) script)
-      pure (.wcli { c with encrypt := r.state }, wrResult r)
-    | .wsrv _ => pure (o, "na")
+      let r ← liftOut (c.writeClientHeader (nat! s) (nat! op) script)
+      pure (.wcli r.state, wrResult r)
+    | .wcliH en de => do
+      let r ← liftOut (wClientWriteHeader en (nat! s) (nat! op) script)
+      pure (.wcliH r.state de, wrResult r)
+    | _ => pure (o, "na")
   | ["at", d] =>
     match o with
     | .wcli c => do
-      let (de', a) ← liftOut (c.decrypt.attempt (unhex d))
+      let (c', a) ← liftOut (c.attempt (unhex d))
       let s := match a with
         | .header s op => s!"h:{s}:{op}"
         | .additionalByteRequired => "more"
-      pure (.wcli { c with decrypt := de' }, s)
+      pure (.wcli c', s)
+    | .wcliH en de => do
+      let (de', a) ← liftOut (de.attempt (unhex d))
+      let s := match a with
+        | .header s op => s!"h:{s}:{op}"
+        | .additionalByteRequired => "more"
+      pure (.wcliH en de', s)
     | _ => pure (o, "na")
   | ["lg", d] =>
     match o with
     | .wcli c => do
-      let (de', (s, op)) ← liftOut (c.decrypt.decryptLarge ((unhex d).headD 0))
-      pure (.wcli { c with decrypt := de' }, s!"{s}:{op}")
+      let (c', (s, op)) ← liftOut (c.decryptLarge ((unhex d).headD 0))
+      pure (.wcli c', s!"{s}:{op}")
+    | .wcliH en de => do
+      let (de', (s, op)) ← liftOut (de.decryptLarge ((unhex d).headD 0))
+      pure (.wcliH en de', s!"{s}:{op}")
     | _ => pure (o, "na")
   | ["split"] =>
     match o with
     | .comb e hc => let (en, de) := hc.split; pure (.halves e en de, "ok")
-    | _ => pure (o, "ok")     -- Wrath halves are kept inside the pair by the driver; split loses nothing
+    | .wcli c => let (en, de) := c.split; pure (.wcliH en de, "ok")
+    | .wsrv c => let (en, de) := c.split; pure (.wsrvH en de, "ok")
+    | _ => pure (o, "ok")
   | ["unsplit"] =>
     match o with
     | .halves .vanilla en de =>
@@ -292,6 +334,9 @@ def hdrOp (o : HObj) (tok : String) : M (HObj × String) := do
     match o with
     | .wcli c => do
       let (_, (s, op)) ← liftOut (c.decrypt.decryptLarge 0)
+      pure (o, s!"{hex e}:{hex d}:{s}:{op}")
+    | .wcliH _ de => do
+      let (_, (s, op)) ← liftOut (de.decryptLarge 0)
       pure (o, s!"{hex e}:{hex d}:{s}:{op}")
     | _ => pure (o, s!"{hex e}:{hex d}")
   | _ => throw "bad-op"
@@ -639,11 +684,11 @@ def runOp (be : Backend) (args : List String) : M String := do
         let proof := v.intoProof C
         let ok ← liftOut (verifyMatrixCardHash C card (nat! count) (nat! seed) (unhex k) proof)
         pure s!"ok {hex proof} {if ok then 1 else 0}"
-  | ["rng.pinseed"] => do let d ← draw 4; pure s!"{ofLE d}"
-  | ["rng.pinsalt"] => do let d ← draw Gen.pinSaltSize; pure (hex d)
-  | ["rng.integsalt"] => do let d ← draw Gen.integritySaltLength; pure (hex d)
-  | ["rng.mcseed"] => do let d ← draw 8; pure s!"{ofLE d}"
-  | ["rng.proofseed", _] => do let d ← draw 4; pure s!"{ProofSeed.seed (ProofSeed.ofDraw d)}"
+  | ["rng.pinseed"] => do let v ← drawWith getPinGridSeed; pure s!"{v}"
+  | ["rng.pinsalt"] => do let v ← drawWith getPinSalt; pure (hex v)
+  | ["rng.integsalt"] => do let v ← drawWith getIntegritySalt; pure (hex v)
+  | ["rng.mcseed"] => do let v ← drawWith getMatrixCardSeed; pure s!"{v}"
+  | ["rng.proofseed", _] => do let v ← drawWith proofSeedNew; pure s!"{ProofSeed.seed v}"
   | _ => throw "bad-op"
 
 def step (be : Backend) (line : String) : String :=
